@@ -30,9 +30,9 @@ META["C04"] = {
 
 META["C01"] = {
     "category": "proof", "design_ref": "DESIGN.md section 6, C01",
-    "technique": "Coq: unbounded theorems that the set of integrated operations and the deletion flags are schedule-independent; kernel-checked exhaustive enumeration of all histories of <= 5 insertions x 3 clients / 6 x 2 / 4 x 4 for the order of concurrent insertions; per-step correspondence of the real replicas (item order incl. tombstones) with the model's render under adversarial schedules and all permutations of short histories",
-    "text": "Convergence is a statement over every history x schedule. What is integrated and what is deleted is proved schedule-independent without bound. The order produced by the stateful Yjs conflict scan is proved convergent for the complete finite universes named in the theorems and is otherwise tied to the implementation by comparing, after every single delivery on every replica, the full item order (tombstones included, expanded to units) with the model's canonical rendering of the replica's integrated id set. The full unbounded order-convergence statement is kept as an unproved Definition (partial).",
-    "note": "Partial: no unbounded proof of order convergence for items with right origins. Trusted: unit-level abstraction of blocks, harness printers. The pinned tree violated C01 through the stuck stash (fixed, 0a72352).",
+    "technique": "Coq: unbounded theorems that the set of integrated operations, the deletion flags AND the order of concurrent sequence insertions (the transcribed Yjs conflict scan with right origins, any number of operations and clients, any admissible integration order without per-client FIFO) are schedule-independent; kernel-checked exhaustive enumerations kept as independent evidence; per-step correspondence of the real replicas (item order incl. tombstones) with the model's render under adversarial schedules (out of order, duplicated, merged, full-state relays in v1 and v2) and all permutations of short histories",
+    "text": "Convergence is a statement over every history x schedule. The theorems settle it for the model without bound: what is integrated and what is deleted depends only on the delivered set, and for every well-formed history any two admissible integration orders produce the same sequence (diamond lemma over the origin forest). The tie to the code compares, after every single delivery on every replica, the full item order (tombstones included, expanded to units) with the model's rendering of the replica's integrated id set.",
+    "note": "Trusted: unit-level abstraction of blocks, harness printers; the order theorem is stated for one sequence of unit insertions (deletions and keyed chains have their own theorems). The pinned tree violated C01 through the stuck stash (fixed, 0a72352).",
 }
 META["C05"] = {
     "category": "proof", "design_ref": "DESIGN.md section 6, C05",
